@@ -76,7 +76,7 @@ L_PART = 'w = flatcc_json_parser_symbol_part(buf, end);'
 L_UNM_FIELD = 'buf = flatcc_json_parser_unmatched_symbol(ctx, buf, end);'
 L_UNM_RET = 'return unmatched;'
 
-RE_FN = re.compile(r'^static const char \*(\w+?)_(parse_json_table|parse_json_struct_inline|parse_json_enum|json_parser_enum)\(flatcc_json_parser_t \*ctx, const char \*buf, const char \*end,?(.*)$')
+RE_FN = re.compile(r'^static const char \*(\w+?)_(parse_json_table|parse_json_struct_inline|parse_json_enum|json_parser_enum)(_layer\d+)?\(flatcc_json_parser_t \*ctx, const char \*buf, const char \*end,?(.*)$')
 
 
 def _brace_delta(line):
@@ -216,7 +216,8 @@ def parse_header(text, cname_index):
         while j < len(raw) and raw[j].strip() != '{' and not raw[j].rstrip().endswith(';'): j += 1
         if j >= len(raw) or raw[j].strip() != '{':
             i = j + 1; continue
-        fname = m.group(1) + '_' + m.group(2)
+        fname = m.group(1) + '_' + m.group(2) + (m.group(3) or '')
+        if m.group(3) and not m.group(1).endswith('_global'): raise TranslateError('%s: layered trie outside a global scope parser' % fname)
         kind = {'parse_json_table': 'table', 'parse_json_struct_inline': 'struct', 'parse_json_enum': 'enum', 'json_parser_enum': 'scope'}[m.group(2)]
         # function body: up to the line that is exactly '}'
         k = j + 1
@@ -226,6 +227,14 @@ def parse_header(text, cname_index):
         stripped = [_cmt.sub('', b).strip() for b in body]
         stripped = [b for b in stripped if b != '']
         first = [n for n, b in enumerate(stripped) if b == L_PART]
+        if not first and kind == 'scope' and stripped and stripped[0] == 'const char *k;':
+            # a global scope parser whose names are spread over layers: tries each layer function in turn
+            n, ok = len(stripped) - 2, stripped[-1] == 'return buf;'
+            for L in range(n):
+                ok = ok and stripped[1 + L] == 'if (buf != (k = %s_layer%d(ctx, buf, end, value_type, value, aggregate))) return k;' % (fname, L)
+            if not ok or n < 2: raise TranslateError('%s: unrecognised layer chain: %r' % (fname, stripped))
+            out[fname] = {'kind': kind, 'trie': None, 'layers': n}
+            i = k + 1; continue
         if not first:
             # empty dictionary: the generator emits no trie
             markers = ('buf = flatcc_json_parser_unmatched_symbol(ctx, buf, end);', 'return buf;')
@@ -260,9 +269,9 @@ SCALARS = {'bool': 1, 'byte': 1, 'ubyte': 1, 'int8': 1, 'uint8': 1, 'short': 2, 
 
 
 def parse_fbs(text):
-    """-> schema dict: {'decls': [ {kind, ns (list), name, ...} ], 'root': name}"""
+    """one file -> {'decls': [ {kind, ns (list), name, ...} ], 'root': name, 'includes': [file names]}"""
     text = re.sub(r'//[^\n]*', '', text)
-    toks = re.findall(r'[A-Za-z_][A-Za-z0-9_.]*|-?\d+|[{}:;,=()\[\]]', text)
+    toks = re.findall(r'"[^"]*"|[A-Za-z_][A-Za-z0-9_.]*|-?\d+|[{}:;,=()\[\]]', text)
     pos = [0]
 
     def peek(): return toks[pos[0]] if pos[0] < len(toks) else None
@@ -286,10 +295,12 @@ def parse_fbs(text):
             take(')')
         return a
 
-    ns, decls, root = [], [], None
+    ns, decls, root, includes = [], [], None, []
     while peek() is not None:
         t = take()
-        if t == 'namespace':
+        if t == 'include':
+            includes.append(os.path.basename(take().strip('"'))); take(';')
+        elif t == 'namespace':
             if peek() == ';': ns = []
             else: ns = take().split('.')
             take(';')
@@ -333,7 +344,57 @@ def parse_fbs(text):
             decls.append({'kind': t, 'ns': list(ns), 'name': name, 'fields': fields})
         else:
             raise TranslateError('fbs: unexpected token %r' % t)
-    return {'decls': decls, 'root': root}
+    return {'decls': decls, 'root': root, 'includes': includes}
+
+
+BUNDLE_MARK = '//// file: '
+
+
+def split_bundle(text, base):
+    """A schema of several files is carried as one text: the root file first, every other file after a line
+    `//// file: <name>.fbs`.  -> ordered dict file base name -> text"""
+    files, cur = {base: []}, base
+    for line in text.split('\n'):
+        if line.startswith(BUNDLE_MARK):
+            cur = line[len(BUNDLE_MARK):].strip()
+            if cur.endswith('.fbs'): cur = cur[:-4]
+            files[cur] = []
+        else: files[cur].append(line)
+    return {k: '\n'.join(v) + '\n' for k, v in files.items()}
+
+
+def join_bundle(files, base):
+    return files[base] + ''.join('%s%s.fbs\n%s' % (BUNDLE_MARK, k, v) for k, v in files.items() if k != base)
+
+
+def parse_bundle(text, base):
+    """-> {'decls' (every declaration of every file, tagged 'file'), 'root', 'files' [base names], 'visible' {file: set of files}}"""
+    files = split_bundle(text, base)
+    per = {k: parse_fbs(v) for k, v in files.items()}
+    decls = []
+    order, seen = [], set()
+    def visit(f):
+        if f in seen: return
+        seen.add(f)
+        for i in per[f]['includes']:
+            i = i[:-4] if i.endswith('.fbs') else i
+            if i not in per: raise TranslateError('fbs: included file %s is not part of the schema bundle' % i)
+            visit(i)
+        order.append(f)
+    visit(base)
+    for f in order:
+        for d in per[f]['decls']:
+            d['file'] = f; decls.append(d)
+    vis = {}
+    def closure(f):
+        if f in vis: return vis[f]
+        vis[f] = {f}
+        for i in per[f]['includes']:
+            i = i[:-4] if i.endswith('.fbs') else i
+            vis[f] |= closure(i)
+        return vis[f]
+    for f in order: closure(f)
+    return {'decls': decls, 'root': per[base]['root'], 'files': order, 'visible': vis}
 
 
 def cname(d):
@@ -392,28 +453,66 @@ def dictionaries(schema, basename):
             out[cname(d) + '_parse_json_struct_inline'] = {'kind': 'struct', 'names': names, 'decl': d}
         else:
             out[cname(d) + '_parse_json_enum'] = {'kind': 'enum', 'names': [(s.encode(), v) for s, v in d['syms']], 'decl': d}
-    # local scope dictionaries: one per namespace that occurs (flatcc also emits one for the root namespace)
-    scopes = {}
-    for d in schema['decls']:
-        scopes.setdefault(tuple(d['ns']), [])
-    scopes.setdefault((), [])
-    for d in enums:
-        scopes[tuple(d['ns'])].append(d)
-    for ns, ds in scopes.items():
-        fn = '%s_local_%sjson_parser_enum' % (basename, ''.join(x + '_' for x in ns))
-        out[fn] = {'kind': 'scope', 'names': [(d['name'].encode(), cidx[cname(d)]) for d in ds], 'decl': None, 'ns': list(ns)}
-    out['%s_global_json_parser_enum' % basename] = {
-        'kind': 'scope', 'names': [('.'.join(d['ns'] + [d['name']]).encode(), cidx[cname(d)]) for d in enums], 'decl': None, 'global': True}
+    # scope dictionaries, per generated file F: one local scope dictionary per namespace (the enum / union types of that
+    # namespace VISIBLE to F: declared in F or in a file F includes, directly or not), one global dictionary (all visible)
+    allns = {tuple(d['ns']) for d in schema['decls']} | {()}
+    for F in schema.get('files', [basename]):
+        vis = schema.get('visible', {}).get(F, {F})
+        venums = [d for d in enums if d.get('file', F) in vis]
+        for ns in allns:
+            fn = '%s_local_%sjson_parser_enum' % (F, ''.join(x + '_' for x in ns))
+            out[fn] = {'kind': 'scope', 'names': [(d['name'].encode(), cidx[cname(d)]) for d in venums if tuple(d['ns']) == ns],
+                       'decl': None, 'ns': list(ns), 'file': F}
+        gnames = [('.'.join(d['ns'] + [d['name']]).encode(), cidx[cname(d)]) for d in venums]
+        lay = scope_layers([n for n, _ in gnames])
+        gfn = '%s_global_json_parser_enum' % F
+        if max(lay.values(), default=0) == 0:
+            out[gfn] = {'kind': 'scope', 'names': gnames, 'decl': None, 'global': True, 'file': F}
+        else:
+            # a qualified enum name that is also the namespace of another enum is looked up in a later layer
+            nl = max(lay.values()) + 1
+            out[gfn] = {'kind': 'scope', 'names': [], 'decl': None, 'global': True, 'file': F, 'layers': nl}
+            for L in range(nl):
+                out['%s_layer%d' % (gfn, L)] = {'kind': 'scope', 'names': [(n, k) for n, k in gnames if lay[n] == L], 'decl': None,
+                                                'global': True, 'file': F, 'layer': L}
+    for fn, d in out.items():
+        if d.get('decl') is not None: d['file'] = d['decl'].get('file', basename)
     return cnames, out
 
 
-def translate(fbs_text, header_text, basename):
-    """-> list of entries {'fn', 'kind', 'dotted', 'trie' (term or None), 'names' [(bytes,key)], 'decl'} in a stable order.
-    Raises TranslateError when header and schema do not describe the same set of dictionaries."""
-    schema = parse_fbs(fbs_text)
+def scope_layers(names):
+    """layer of every qualified name: 0 unless name + '.' is a prefix of another name, then one more than the deepest such"""
+    lay = {}
+    for n in sorted(names, key=lambda x: -len(x)):
+        deeper = [lay[m] for m in names if m.startswith(n + b'.')]
+        lay[n] = 1 + max(deeper) if deeper else 0
+    return lay
+
+
+def translate(fbs_text, headers, basename):
+    """fbs_text: the schema (bundle); headers: {file base name: text of <file>_json_parser.h} (or the text, for a single file).
+    -> (schema, entries {'fn', 'kind', 'dotted', 'trie' (term or None), 'names' [(bytes,key)], 'decl', 'file'}) in a stable order.
+    Raises TranslateError when headers and schema do not describe the same set of dictionaries."""
+    if isinstance(headers, str): headers = {basename: headers}
+    schema = parse_bundle(fbs_text, basename)
     cnames, dicts = dictionaries(schema, basename)
     cidx = {c: i for i, c in enumerate(cnames)}
-    hdr = parse_header(header_text, cidx)
+    hdr = {}
+    for F in schema['files']:
+        if F not in headers: raise TranslateError('no generated parser header for schema file %s' % F)
+        h = parse_header(headers[F], cidx)
+        for fn, v in h.items():
+            if fn in hdr: raise TranslateError('parser function %s generated twice' % fn)
+            v['file'] = F; hdr[fn] = v
+    # a generator that does not separate a qualified enum name from the namespace of the same name emits ONE global trie
+    # over all names: translate it as such (the checker then rejects the trie, the dynamic tier finds the rejected input)
+    for F in schema['files']:
+        gfn = '%s_global_json_parser_enum' % F
+        d = dicts.get(gfn)
+        if d and d.get('layers') and gfn in hdr and hdr[gfn].get('layers') is None and hdr[gfn]['trie'] is not None:
+            for L in range(d['layers']):
+                d['names'] += dicts.pop('%s_layer%d' % (gfn, L))['names']
+            d['names'].sort(); d['unlayered'] = d.pop('layers')
     res = []
     for fn in sorted(dicts):
         d = dicts[fn]
@@ -423,13 +522,16 @@ def translate(fbs_text, header_text, basename):
             raise TranslateError('parser function %s expected from the schema is not in the generated header' % fn)
         h = hdr[fn]
         if h['kind'] != d['kind']: raise TranslateError('%s: kind mismatch' % fn)
+        if h['file'] != d['file']: raise TranslateError('%s: generated into %s, expected in %s' % (fn, h['file'], d['file']))
+        if h.get('layers') != d.get('layers'):
+            raise TranslateError('%s: layer chain of %s layers generated, %s expected' % (fn, h.get('layers'), d.get('layers')))
         if h['trie'] is None and d['names']:
             raise TranslateError('%s: schema declares %d names but the generated parser has no trie' % (fn, len(d['names'])))
         if h['trie'] is not None and not d['names']:
             raise TranslateError('%s: generated parser has a trie for an empty dictionary' % fn)
         dotted = any(b'.' in n for n, _ in d['names'])
         res.append({'fn': fn, 'kind': d['kind'], 'dotted': dotted, 'trie': h['trie'], 'names': d['names'], 'decl': d.get('decl'),
-                    'global': d.get('global', False), 'ns': d.get('ns')})
+                    'global': d.get('global', False), 'ns': d.get('ns'), 'file': d['file'], 'layers': d.get('layers'), 'layer': d.get('layer'), 'unlayered': d.get('unlayered')})
     extra = [fn for fn in hdr if fn not in dicts and not fn.endswith('_parse_json_struct')]
     if extra: raise TranslateError('generated header has parser functions the schema does not explain: %s' % extra)
     return schema, res
@@ -468,7 +570,7 @@ if __name__ == '__main__':
     # usage: trie_h_to_coq.py schema.fbs schema_json_parser.h  -> prints the s-expression form
     fbs, hdr = sys.argv[1], sys.argv[2]
     base = os.path.basename(fbs)[:-4]
-    _, ents = translate(open(fbs).read(), open(hdr).read(), base)
+    _, ents = translate(open(fbs).read(), open(hdr).read(), base)   # single-file schemas only
     for e in ents:
         print(e['fn'], e['kind'], 'dotted' if e['dotted'] else 'ident')
         print('  ', sexp(e['trie']) if e['trie'] else '(empty)')
